@@ -420,9 +420,13 @@ def run_coap(loop, evs):
         ctx = coapc.EncryptionContext(ChaCha20Poly1305(KEY_A2C), ChaCha20Poly1305(KEY_C2A), ChaCha20Poly1305(KEY_EV), "coap://x/", cc)
         orig = ctx.send_ctx
 
+        expect_send = [0]  # the send counter as it stands if nobody rewinds it
+
         class Spy:
             def encrypt(self, nonce, data, aad):
-                obs.append("s%d" % struct.unpack("=4xQ", nonce)[0])
+                n = struct.unpack("=4xQ", nonce)[0]
+                obs.append("s%d" % n)
+                expect_send[0] = max(expect_send[0], n + 1)
                 return orig.encrypt(nonce, data, aad)
         ctx.send_ctx = Spy()
         tries = [0]
@@ -436,7 +440,6 @@ def run_coap(loop, evs):
 
         async def response(coro):
             tries[0] = 0
-            before = ctx.send_ctr
             try:
                 out = await coro
                 if tries[0] > 1:
@@ -444,8 +447,10 @@ def run_coap(loop, evs):
                 obs.append("a" + out[1:].decode())
             except Exception:  # noqa: BLE001
                 obs.append("c")
-            if ctx.send_ctr < before:
+            if ctx.send_ctr < expect_send[0]:
+                # _decrypt_response zeroed the counters (the only code that ever lowers send_ctr)
                 meta["zeroed"].append(len(obs))
+                expect_send[0] = ctx.send_ctr
         i = 0
         while i < len(evs):
             ev = evs[i]
@@ -524,6 +529,9 @@ def analyse(ctx, transport, evs, obs, case, meta=None):
                     sig = "coap/reset-accepts-replay"
                 elif hi - a <= 5:
                     sig = "coap/rewind-accepts-replay"
+            elif transport == "coap" and any(h < i for h in meta["heur"]):
+                # accepted at the first try, but only because an earlier resynchronisation had moved the receive counter back
+                sig = "coap/reset-accepts-replay" if any(z <= i for z in meta["zeroed"]) else "coap/rewind-accepts-replay"
             out.append((sig, f"{transport}: accepted {[x for _, x in acc]} - a message was accepted twice or out of order"))
             break
         hi = a
